@@ -12,6 +12,8 @@ vsim.mqtt are available (kind="stream"/"mqtt").
 
 from __future__ import annotations
 
+from vsim.core import task_exc  # noqa: E402
+
 import random
 
 from vsim import gen as G
@@ -282,8 +284,8 @@ def run_bytes(scn):
                 gw.protocol_version = cfg["pin"]
             t = loop.create_task(tr.connect())
             loop.run_until_idle(10)
-            if not t.done() or t.exception() is not None:
-                raise RuntimeError(f"connect failed in a fault-free setup: {t.exception() if t.done() else 'hang'}")
+            if not t.done() or task_exc(t) is not None:
+                raise RuntimeError(f"connect failed in a fault-free setup: {task_exc(t) if t.done() else 'hang'}")
             if scn["kind"] == "stream":
                 data = b"".join(b + b"\n" for b, _ in lines)
                 pos = 0
@@ -329,7 +331,7 @@ def run_bytes(scn):
                         res.violate(PROP, "returns-or-raises", f"hang:{scn['kind']}:{tag.split('+')[0].split('-')[0]}",
                                     f"line #{k} {b[:60]!r} was delivered but listen never returned")
                     continue
-                exc = task.exception() if not task.cancelled() else asyncio.CancelledError()
+                exc = task_exc(task) if not task.cancelled() else asyncio.CancelledError()
                 if exc is None:
                     if last_err and tag == "good":
                         res.probes["stream_error_then_good_line"] += 1
